@@ -11,7 +11,10 @@ Proof.
     destruct (a && closed st).
     + destruct (step st (QueueFail c)) as [s2|] eqn:E2; inversion H; subst;
         [exists [Submit c h; QueueFail c] | exists [Submit c h]]; cbn [run core]; rewrite E; try rewrite E2; reflexivity.
-    + inversion H; subst. exists [Submit c h]. cbn [run core]. now rewrite E.
+    + destruct (a && idle x).
+      * destruct (step st (IdleFail c)) as [s2|] eqn:E2; inversion H; subst;
+          [exists [Submit c h; IdleFail c] | exists [Submit c h]]; cbn [run core]; rewrite E; try rewrite E2; reflexivity.
+      * inversion H; subst. exists [Submit c h]. cbn [run core]. now rewrite E.
   - destruct (sendloop x && memb c (chq x) && negb (memb c (inb x)) && is_queued (e_st (ent (core x) c))); [|discriminate].
     inversion H; subst. exists []. reflexivity.
   - destruct (round_guard x lim takes); [|discriminate].
@@ -25,7 +28,7 @@ Proof.
   - destruct (sendloop x && closed (core x) && match inb x with [] => true | _ => false end); [|discriminate].
     destruct (run (core x) (map QueueFail (drained x))) eqn:E; [|discriminate]. inversion H; subst. eexists; exact E.
   - destruct (sendloop x && negb (closed (core x)) && match inb x with [] => true | _ => false end); [|discriminate].
-    inversion H; subst. exists []. reflexivity.
+    destruct (run (core x) (map IdleFail (drained x))) eqn:E; [|discriminate]. inversion H; subst. eexists; exact E.
   - destruct (sendloop x && match inb x with [] => false | _ => true end); [|discriminate].
     inversion H; subst. exists []. reflexivity.
   - destruct (core_allowed x l); [|discriminate]. destruct (step (core x) l) eqn:E; [|discriminate].
@@ -246,9 +249,9 @@ Lemma wake_builds_leftover : forall x c, sendloop x = true -> NoDup (inb x) ->
     /\ xstep x1 (XBuildRound lim (inb x)) = Some x2 /\ e_st (ent (core x2) c) = Built i /\ inb x2 = [].
 Proof.
   intros x c HS ND HQ Hin HC.
-  assert (Hw : xstep x XWake = Some (mkSys (core x) (chq x) (inb x) (pri x) (asy x) (sendloop x) true)).
+  assert (Hw : xstep x XWake = Some (mkSys (core x) (chq x) (inb x) (pri x) (asy x) (sendloop x) true (idle x))).
   { simpl. rewrite HS. destruct (inb x); [destruct Hin | reflexivity]. }
-  set (x1 := mkSys (core x) (chq x) (inb x) (pri x) (asy x) (sendloop x) true).
+  set (x1 := mkSys (core x) (chq x) (inb x) (pri x) (asy x) (sendloop x) true (idle x)).
   destruct (build_labels_succeeds (inb x) (ent (core x)) (next_id (core x)) (core x) ND eq_refl) as [s' Hr].
   { intros c' Hc'. split; auto. }
   assert (G : round_guard x1 None (inb x) = true).
@@ -260,7 +263,7 @@ Proof.
     { apply forallb_forall. intros r Hr0. apply memb_In in Hr0. now rewrite Hr0. }
     rewrite B. reflexivity. }
   exists x1. eexists. exists None.
-  assert (Hx2 : xstep x1 (XBuildRound None (inb x)) = Some (mkSys s' (chq x) (filter (fun c0 => negb (memb c0 (inb x))) (inb x)) (pri x) (asy x) (sendloop x) false)).
+  assert (Hx2 : xstep x1 (XBuildRound None (inb x)) = Some (mkSys s' (chq x) (filter (fun c0 => negb (memb c0 (inb x))) (inb x)) (pri x) (asy x) (sendloop x) false (idle x))).
   { unfold xstep. rewrite G. unfold x1; cbn [core inb chq pri asy sendloop]. rewrite Hr. reflexivity. }
   destruct (build_labels_popped _ _ _ _ _ ND Hr c Hin) as [(P & _)|(_ & i & Q & _)]; [congruence|].
   exists i. split; [exact Hw|]. split; [reflexivity|]. split; [reflexivity|]. split; [exact Hx2|]. split; [exact Q|].
@@ -281,7 +284,7 @@ Proof.
     + destruct (sendloop x); [|discriminate]. destruct (run (core x) _); [|discriminate]. inversion H; subst; auto.
     + destruct (sendloop x); [|discriminate]. destruct (run (core x) _); [|discriminate]. inversion H; subst; auto.
     + destruct (sendloop x && closed (core x) && _); [|discriminate]. destruct (run (core x) _); [|discriminate]. inversion H; subst; auto.
-    + destruct (sendloop x && negb (closed (core x)) && _); [|discriminate]. inversion H; subst; auto.
+    + destruct (sendloop x && negb (closed (core x)) && _); [|discriminate]. destruct (run (core x) _); [|discriminate]. inversion H; subst; auto.
     + congruence.
     + destruct (core_allowed x l); [|discriminate]. destruct (step (core x) l); [|discriminate]. inversion H; subst; auto.
   - intros lim takes. unfold xstep, round_guard. rewrite HR. now rewrite andb_false_r.
@@ -291,10 +294,10 @@ Qed.
 Lemma step_keeps_queued_entry : forall s l s' c, Inv s -> e_st (ent s c) = Queued -> e_comp (ent s c) = [] ->
   step s l = Some s' ->
   (forall h, l <> Submit c h) -> (forall i, l <> Build c i) -> l <> DropCanceled c -> l <> NoConn c -> l <> InitFail c ->
-  (forall k, l <> Abort c k) -> l <> QueueFail c ->
+  (forall k, l <> Abort c k) -> l <> QueueFail c -> l <> IdleFail c ->
   ent s' c = ent s c.
 Proof.
-  intros s l s' c I HQ HC H N1 N2 N3 N4 N5 N6 N7.
+  intros s l s' c I HQ HC H N1 N2 N3 N4 N5 N6 N7 N8.
   assert (Hup : forall c0 e, c0 <> c -> upd (ent s) c0 e c = ent s c) by (intros; apply upd_other; auto).
   destruct l; simpl in H.
   - destruct (e_st (ent s c0)); try discriminate. inv_some. simpl. apply Hup. intros E; subst. eapply N1; eauto.
@@ -334,6 +337,7 @@ Proof.
     apply Hup. intros E; subst. congruence.
   - destruct (e_st (ent s c0)); try discriminate. destruct (closed s); try discriminate. inv_some. simpl.
     apply Hup. intros E; subst. now apply N7.
+  - destruct (e_st (ent s c0)); try discriminate. inv_some. simpl. apply Hup. intros E; subst. now apply N8.
 Qed.
 
 (* once batchSendLoop has returned -- on close or on the idle timer -- a queued asynchronous call is completed by nothing
@@ -344,6 +348,11 @@ Lemma queuefail_other : forall s c0 st c, step s (QueueFail c0) = Some st -> c <
 Proof.
   intros s c0 st c H N. simpl in H. destruct (e_st (ent s c0)); try discriminate. destruct (closed s); try discriminate.
   inversion H; subst. simpl. now apply upd_other.
+Qed.
+
+Lemma idlefail_other : forall s c0 st c, step s (IdleFail c0) = Some st -> c <> c0 -> ent st c = ent s c.
+Proof.
+  intros s c0 st c H N. simpl in H. destruct (e_st (ent s c0)); try discriminate. inversion H; subst. simpl. now apply upd_other.
 Qed.
 
 Lemma async_after_exit : forall x c l x', xreach x -> sendloop x = false -> asy x c = true ->
@@ -357,10 +366,15 @@ Proof.
   - unfold xstep in H. destruct (step (core x) (Submit c0 h)) as [st|] eqn:E; [|discriminate].
     assert (c <> c0).
     { intros E0; subst c0. simpl in E. rewrite HQ in E. discriminate. }
-    assert (Hc : forall st', (if a && closed st then match step st (QueueFail c0) with Some s2 => s2 | None => st end else st) = st' -> ent st' c = ent (core x) c).
-    { intros st' Hs. destruct (a && closed st); [|subst; eapply submit_other; eauto].
-      destruct (step st (QueueFail c0)) as [s2|] eqn:E2; subst; [|eapply submit_other; eauto].
-      rewrite (queuefail_other _ _ _ _ E2 H0). eapply submit_other; eauto. }
+    assert (Hc : forall st', (if a && closed st then match step st (QueueFail c0) with Some s2 => s2 | None => st end
+                              else if a && idle x then match step st (IdleFail c0) with Some s2 => s2 | None => st end else st) = st' ->
+                             ent st' c = ent (core x) c).
+    { intros st' Hs. destruct (a && closed st).
+      - destruct (step st (QueueFail c0)) as [s2|] eqn:E2; subst; [|eapply submit_other; eauto].
+        rewrite (queuefail_other _ _ _ _ E2 H0). eapply submit_other; eauto.
+      - destruct (a && idle x); [|subst; eapply submit_other; eauto].
+        destruct (step st (IdleFail c0)) as [s2|] eqn:E2; subst; [|eapply submit_other; eauto].
+        rewrite (idlefail_other _ _ _ _ E2 H0). eapply submit_other; eauto. }
     inversion H; subst; clear H. cbn [core sendloop asy]. split; [apply Hc; reflexivity|]. split; auto.
     unfold updb. destruct (Nat.eqb_spec c c0); congruence.
   - simpl in H. rewrite HS in H. discriminate.
@@ -463,4 +477,127 @@ Lemma uclose_completes : forall u c, uclosed u = true -> ucalls u c = UPending -
   exists u', ustep u (UFail c EClosed) = Some u' /\ ucalls u' c = UDone (Err EClosed).
 Proof.
   intros u c HC HP. simpl. rewrite HP, HC. eexists; split; [reflexivity|]. simpl. unfold uupd. now rewrite Nat.eqb_refl.
+Qed.
+
+(* ---------------------------------------------------------------- the idle exit of the send loop (fix e17a7fd) *)
+Lemma run_idlefail : forall cs s s', run s (map IdleFail cs) = Some s' ->
+  (forall c, In c cs -> e_st (ent s c) = Queued /\ e_comp (ent s' c) = e_comp (ent s c) ++ [Err EIdle] /\ e_st (ent s' c) = Retired)
+  /\ (forall c, ~ In c cs -> ent s' c = ent s c).
+Proof.
+  induction cs as [|c0 r IH]; simpl; intros s s' H.
+  - inversion H; subst. split; [tauto | auto].
+  - destruct (e_st (ent s c0)) eqn:ES; try discriminate.
+    destruct (IH _ _ H) as [A B]. clear IH.
+    assert (Hn : ~ In c0 r).
+    { intros Hin. destruct (A _ Hin) as (Q & _). simpl in Q. rewrite upd_same in Q. simpl in Q. discriminate. }
+    split.
+    + intros c [E|Hin].
+      * subst c. rewrite (B _ Hn). simpl. rewrite upd_same. simpl. auto.
+      * destruct (A _ Hin) as (Q & C & D). assert (c <> c0) by (intros E; subst; tauto).
+        simpl in Q, C. rewrite upd_other in Q, C by auto. auto.
+    + intros c Hc. assert (c <> c0) by (intros E; subst; apply Hc; now left).
+      rewrite B by (intros Hin; apply Hc; now right). simpl. now rewrite upd_other.
+Qed.
+
+Lemma idle_exit_drains : forall x x', xstep x XIdleExit = Some x' ->
+  chq x' = [] /\ sendloop x' = false /\ idle x' = true
+  /\ (forall c, In c (chq x) -> asy x c = true -> e_st (ent (core x) c) = Queued ->
+        e_comp (ent (core x') c) = e_comp (ent (core x) c) ++ [Err EIdle] /\ e_st (ent (core x') c) = Retired).
+Proof.
+  intros x x' H. unfold xstep in H.
+  destruct (sendloop x && negb (closed (core x)) && match inb x with [] => true | _ => false end); [|discriminate].
+  destruct (run (core x) (map IdleFail (drained x))) eqn:E; [|discriminate]. inversion H; subst; clear H. simpl.
+  split; auto. split; auto. split; auto. intros c Hin HA HQ. destruct (run_idlefail _ _ _ E) as [A _].
+  destruct (A c) as (_ & B & C); auto. unfold drained. apply filter_In. split; auto. now rewrite HA, HQ.
+Qed.
+
+Lemma async_submit_when_idle : forall x c h p, idle x = true -> closed (core x) = false -> e_st (ent (core x) c) = Fresh ->
+  exists x', xstep x (XSubmit c h p true) = Some x' /\ e_comp (ent (core x') c) = [Err EIdle] /\ e_st (ent (core x') c) = Retired.
+Proof.
+  intros x c h p HI HC HF. unfold xstep.
+  assert (E1 : step (core x) (Submit c h) = Some (with_ent (core x) (upd (ent (core x)) c (mkEntry h Queued [] false None)))).
+  { simpl. now rewrite HF. }
+  rewrite E1. cbn [andb]. cbn [closed with_ent]. rewrite HC, HI.
+  match goal with |- context [step ?st (IdleFail c)] =>
+    assert (E2 : step st (IdleFail c) = Some (with_ent st (upd (ent st) c (complete (ent st c) (Err EIdle))))) end.
+  { simpl. rewrite upd_same. reflexivity. }
+  rewrite E2. eexists; split; [reflexivity|]. simpl. rewrite !upd_same. simpl. auto.
+Qed.
+
+(* the send loop is only ever gone because the client was closed or the conn has become idle -- and both are for good *)
+Definition exit_reason (x : sys) : Prop := sendloop x = false -> closed (core x) = true \/ idle x = true.
+
+Lemma closed_stays : forall s l s', step s l = Some s' -> closed s = true -> closed s' = true.
+Proof.
+  intros s l s' H HC. destruct l; simpl in H;
+    repeat match type of H with
+           | context [match ?x with _ => _ end] => destruct x eqn:?; try discriminate
+           end; try (inv_some; simpl; auto; fail); auto.
+Qed.
+
+Lemma run_closed_stays : forall ls s s', run s ls = Some s' -> closed s = true -> closed s' = true.
+Proof.
+  induction ls as [|l r IH]; simpl; intros s s' H HC; [inversion H; subst; auto|].
+  destruct (step s l) eqn:E; [|discriminate]. eapply IH; eauto. eapply closed_stays; eauto.
+Qed.
+
+Lemma xstep_exit_reason : forall x l x', exit_reason x -> xstep x l = Some x' -> exit_reason x'.
+Proof.
+  intros x l x' P H HS.
+  assert (Hcore : forall ls st, run (core x) ls = Some st -> closed (core x) = true -> closed st = true) by (intros; eapply run_closed_stays; eauto).
+  destruct (xstep_core_run _ _ _ H) as [ls Hrun].
+  destruct l; unfold xstep in H.
+  - destruct (step (core x) (Submit c h)); [|discriminate]. inversion H; subst. simpl in *.
+    destruct (P HS) as [A|A]; [left; eapply Hcore; eauto | now right].
+  - destruct (sendloop x && memb c (chq x) && negb (memb c (inb x)) && is_queued (e_st (ent (core x) c))) eqn:G; [|discriminate].
+    inversion H; subst. simpl in *. rewrite HS in G. discriminate.
+  - destruct (round_guard x lim takes) eqn:G; [|discriminate]. unfold round_guard in G.
+    destruct (run (core x) _); [|discriminate]. inversion H; subst. simpl in *. rewrite HS in G. discriminate.
+  - destruct (sendloop x) eqn:G; [|discriminate]. destruct (run (core x) _); [|discriminate]. inversion H; subst. simpl in *. congruence.
+  - destruct (sendloop x) eqn:G; [|discriminate]. destruct (run (core x) _); [|discriminate]. inversion H; subst. simpl in *. congruence.
+  - destruct (sendloop x && closed (core x) && match inb x with [] => true | _ => false end) eqn:G; [|discriminate].
+    destruct (run (core x) (map QueueFail (drained x))) eqn:E; [|discriminate]. inversion H; subst. simpl in *.
+    apply andb_prop in G. destruct G as [G _]. apply andb_prop in G. destruct G as [_ G]. left. eapply run_closed_stays; eauto.
+  - destruct (sendloop x && negb (closed (core x)) && match inb x with [] => true | _ => false end); [|discriminate].
+    destruct (run (core x) (map IdleFail (drained x))); [|discriminate]. inversion H; subst. simpl. now right.
+  - destruct (sendloop x && match inb x with [] => false | _ => true end) eqn:G; [|discriminate].
+    inversion H; subst. simpl in *. rewrite HS in G. discriminate.
+  - destruct (core_allowed x l); [|discriminate]. destruct (step (core x) l) eqn:E; [|discriminate]. inversion H; subst. simpl in *.
+    destruct (P HS) as [A|A]; [left; eapply closed_stays; eauto | now right].
+Qed.
+
+Lemma xreach_exit_reason : forall x, xreach x -> exit_reason x.
+Proof.
+  intros x [ls H]. revert x H.
+  assert (G : forall ls0 x0 x, exit_reason x0 -> xrun x0 ls0 = Some x -> exit_reason x).
+  { induction ls0 as [|l r IH]; simpl; intros x0 x P H; [inversion H; subst; auto|].
+    destruct (xstep x0 l) eqn:E; [|discriminate]. eapply IH; [eapply xstep_exit_reason; eauto | eauto]. }
+  intros x H. eapply G; [|exact H]. intros HS. simpl in HS. discriminate.
+Qed.
+
+(* the full statement for the fixed code: an asynchronous call is never left behind by the send loop --
+   (1) whichever way batchSendLoop returns, it drains the channel and every asynchronous entry queued there gets exactly
+       one error (closed / idle);
+   (2) the loop is only gone when the client is closed or the conn idle, and an asynchronous call that enqueues its entry
+       in such a state is failed at once by the sender's re-check *)
+Lemma async_never_orphaned :
+  (forall x l x', (l = XSendExit \/ l = XIdleExit) -> xstep x l = Some x' ->
+     chq x' = [] /\ sendloop x' = false
+     /\ (forall c, In c (chq x) -> asy x c = true -> e_st (ent (core x) c) = Queued ->
+           exists e, (e = EClosed \/ e = EIdle) /\ e_comp (ent (core x') c) = e_comp (ent (core x) c) ++ [Err e]
+                     /\ e_st (ent (core x') c) = Retired))
+  /\ (forall x c h p, xreach x -> sendloop x = false -> e_st (ent (core x) c) = Fresh ->
+        exists x' e, xstep x (XSubmit c h p true) = Some x' /\ (e = EClosed \/ e = EIdle)
+                     /\ e_comp (ent (core x') c) = [Err e] /\ e_st (ent (core x') c) = Retired).
+Proof.
+  split.
+  - intros x l x' [E|E] H; subst l.
+    + destruct (send_exit_drains _ _ H) as (A & B & C). split; auto. split; auto.
+      intros c H1 H2 H3. destruct (C c H1 H2 H3) as [D F]. exists EClosed. auto.
+    + destruct (idle_exit_drains _ _ H) as (A & B & _ & C). split; auto. split; auto.
+      intros c H1 H2 H3. destruct (C c H1 H2 H3) as [D F]. exists EIdle. auto.
+  - intros x c h p R HS HF. destruct (closed (core x)) eqn:EC.
+    + destruct (async_submit_when_closed x c h p EC HF) as [x' (A & B & C)]. exists x', EClosed. auto.
+    + destruct (xreach_exit_reason x R HS) as [E|E]; [congruence|].
+      destruct (async_submit_when_idle x c h p E EC HF) as [x' (A & B & C)]. exists x', EIdle. auto.
 Qed.
